@@ -880,6 +880,12 @@ impl<S: BitmapSlice + Send + Sync> FileSystem for PassthroughFs<S> {
 
         if self.seal_size.load(Ordering::Relaxed) {
             let st = stat_fd(&*f, None)?;
+            // pwrite() on an O_APPEND descriptor ignores the offset and appends.
+            let offset = if flags & (libc::O_APPEND as u32) != 0 {
+                st.st_size as u64
+            } else {
+                offset
+            };
             self.seal_size_check(Opcode::Write, st.st_size as u64, offset, size as u64, 0)?;
         }
 
